@@ -8008,3 +8008,214 @@ func ruleKeyFieldsDisjoint(r *Run) {
 	}
 	r.check(nFuncs >= 6, "repo:composed-buffers", fmt.Sprintf("%d functions, %d pairs of constant regions compared, %d writes at computed offsets", nFuncs, nPairs, nSym), "too few: rule needs review", "-")
 }
+
+// ---------------------------------------------------------------------------------------------
+// R12.23 / R3.31 — a persisted counter is written and read under the same key
+
+func init() {
+	register(ruleDef{ID: "R12.23", Prop: "C12", Tier: "quick", Floor: 2,
+		Title: "a persisted counter is written and read under the same key: in package datastore, for every metadata key class that more than one function builds with storage.NewTKey from a field of the repo or the manager, every site builds it from the same field (a mutation-id stride written under the repo's version id and read under the repo's id is lost at the next start, and the ids are issued again)",
+		Fn:    ruleMetadataKeyMaterialAgrees})
+	register(ruleDef{ID: "R3.31", Prop: "C03", Tier: "quick", Floor: 2,
+		Title: "(= R12.23) a persisted counter is written and read under the same metadata key",
+		Fn:    ruleMetadataKeyMaterialAgrees})
+}
+
+func ruleMetadataKeyMaterialAgrees(r *Run) {
+	w := r.W
+	type site struct {
+		field string
+		pos   string
+		fn    string
+	}
+	byClass := map[string][]site{}
+	for _, f := range w.RepoFuncs {
+		if len(f.Blocks) == 0 || relPkg(pkgPathOf(f)) != "datastore" || isTestFunc(w, f) {
+			continue
+		}
+		for _, c := range calls(f) {
+			callee := staticCallee(c)
+			if callee == nil || callee.Name() != "NewTKey" || len(c.Common().Args) != 2 {
+				continue
+			}
+			cls, ok := c.Common().Args[0].(*ssa.Const)
+			if !ok || cls.Value == nil {
+				continue
+			}
+			// the key material: X.Bytes() with X read from a field
+			field := ""
+			for d := range dataDeps(c.Common().Args[1]) {
+				if fa, ok := d.(*ssa.FieldAddr); ok {
+					if name, _, _ := fieldName(fa); name != "" {
+						if field == "" || name < field {
+							field = name
+						}
+					}
+				}
+			}
+			if field == "" {
+				continue
+			}
+			k := cls.Value.String()
+			byClass[k] = append(byClass[k], site{field, w.pos(c.Pos()), fname(f)})
+		}
+	}
+	var classes []string
+	for k := range byClass {
+		classes = append(classes, k)
+	}
+	sort.Strings(classes)
+	n := 0
+	for _, k := range classes {
+		sites := byClass[k]
+		if len(sites) < 2 {
+			continue
+		}
+		n++
+		fields := map[string]bool{}
+		detail := ""
+		for _, s := range sites {
+			fields[s.field] = true
+			detail += fmt.Sprintf(" %s uses %s (%s);", s.fn, s.field, s.pos)
+		}
+		r.check(len(fields) == 1, "datastore:key-class-"+k+":one-key-material", fmt.Sprintf("%d sites, all from field %s", len(sites), sites[0].field),
+			"the sites that build keys of metadata class "+k+" take the key material from different fields:"+detail+" what one of them persists the other never finds — after a restart the counter starts from its default and identifiers are issued twice", sites[0].pos)
+	}
+	r.check(n >= 1, "datastore:key-classes-built-from-fields", fmt.Sprintf("%d", n), "none found: rule needs review", "-")
+}
+
+// ---------------------------------------------------------------------------------------------
+// R19.11 — the newest on-path write fills a version's slot
+
+func init() {
+	register(ruleDef{ID: "R19.11", Prop: "C19", Tier: "quick", Floor: 2,
+		Title: "the newest on-path write fills a transferred version's slot: in datastore.copyVersions the store of the current key-value into the per-version slot table is not made to depend on what the slot already holds (key-values of one datum arrive in ascending version order; a later on-path write between two listed versions must replace an earlier one)",
+		Fn:    ruleSlotTakesNewestWrite})
+	register(ruleDef{ID: "R19.12", Prop: "C19", Tier: "quick", Floor: 2,
+		Title: "a copied image volume keeps every creation-time property of its source: imageblk.Properties.copyImmutable stores into every field of Properties (the embedded Extents, which is kept in the metadata but no longer maintained, excepted) — a property left out, such as the background value, makes unwritten blocks of the copy read differently from the source",
+		Fn:    ruleCopyImmutableCoversFields})
+}
+
+func ruleSlotTakesNewestWrite(r *Run) {
+	w := r.W
+	top := w.fn("datastore", "copyVersions")
+	if top == nil {
+		r.undecided("datastore.copyVersions", "anchor not found")
+		return
+	}
+	n := 0
+	for _, f := range closureTree(top) {
+		loops := naturalLoops(f)
+		for _, b := range f.Blocks {
+			for _, in := range b.Instrs {
+				mu, ok := in.(*ssa.MapUpdate)
+				if !ok || isNilConst(mu.Value) {
+					continue
+				}
+				mt, ok := mu.Map.Type().Underlying().(*types.Map)
+				if !ok || !strings.HasSuffix(mt.Key().String(), "dvid.VersionID") || !strings.Contains(mt.Elem().String(), "KeyValue") {
+					continue
+				}
+				n++
+				slotRoot := captureRoot(mu.Map)
+				bad := ""
+				for _, gb := range f.Blocks {
+					if len(gb.Instrs) == 0 {
+						continue
+					}
+					ifi, ok := gb.Instrs[len(gb.Instrs)-1].(*ssa.If)
+					if !ok || !(guardedByEdge(ifi, 0, mu) || guardedByEdge(ifi, 1, mu)) {
+						continue
+					}
+					// only tests inside the loop that holds the store
+					same := false
+					for _, set := range loops {
+						if set[gb] && set[b] {
+							same = true
+						}
+					}
+					if !same {
+						continue
+					}
+					for d := range dataDeps(ifi.Cond) {
+						if lk, ok := d.(*ssa.Lookup); ok && captureRoot(lk.X) == slotRoot {
+							bad = w.pos(ifi.Pos())
+							if bad == "-" {
+								bad = w.pos(blockPos(gb))
+							}
+						}
+					}
+				}
+				r.check(bad == "", fmt.Sprintf("%s:slot-store#%d:unconditional-on-slot-content", fname(f), n), "the store does not depend on what the slot holds",
+					"the store of the current key-value into the version's slot lies behind a test of the slot's own content ("+bad+"): an earlier on-path write between two listed versions keeps the slot, and the transferred version shows an outdated value (or misses a deletion)", w.pos(mu.Pos()))
+			}
+		}
+	}
+	r.check(n >= 1, "copyVersions:slot-stores", fmt.Sprintf("%d", n), "no slot store found: rule needs review", w.fpos(top))
+}
+
+func ruleCopyImmutableCoversFields(r *Run) {
+	w := r.W
+	f := w.method("datatype/imageblk", "Properties", "copyImmutable")
+	if f == nil || len(f.Blocks) == 0 || len(f.Params) == 0 {
+		r.undecided("imageblk.Properties.copyImmutable", "anchor not found")
+		return
+	}
+	ptr, ok := f.Params[0].Type().(*types.Pointer)
+	if !ok {
+		r.undecided("imageblk.Properties.copyImmutable", "receiver is not a pointer")
+		return
+	}
+	st, ok := ptr.Elem().Underlying().(*types.Struct)
+	if !ok {
+		r.undecided("imageblk.Properties.copyImmutable", "receiver is not a struct")
+		return
+	}
+	// top-level fields of the receiver that are stored into (directly or through a nested field)
+	written := map[string]bool{}
+	var topField func(v ssa.Value) string
+	topField = func(v ssa.Value) string {
+		switch x := v.(type) {
+		case *ssa.FieldAddr:
+			if x.X == ssa.Value(f.Params[0]) {
+				name, _, _ := fieldName(x)
+				return name
+			}
+			return topField(x.X)
+		case *ssa.IndexAddr:
+			return topField(x.X)
+		case *ssa.UnOp:
+			return topField(x.X)
+		}
+		return ""
+	}
+	for _, b := range f.Blocks {
+		for _, in := range b.Instrs {
+			switch x := in.(type) {
+			case *ssa.Store:
+				if n := topField(x.Addr); n != "" {
+					written[n] = true
+				}
+			case ssa.CallInstruction:
+				// copy(p.Field, …)
+				if bi, ok := x.Common().Value.(*ssa.Builtin); ok && bi.Name() == "copy" {
+					if n := topField(x.Common().Args[0]); n != "" {
+						written[n] = true
+					}
+				}
+			}
+		}
+	}
+	n := 0
+	for i := 0; i < st.NumFields(); i++ {
+		name := st.Field(i).Name()
+		construct := "imageblk.Properties.copyImmutable:field-" + name
+		if name == "Extents" {
+			r.check(true, construct, "excepted: kept in the metadata but no longer maintained (the extents are stored per version elsewhere)", "", w.fpos(f))
+			continue
+		}
+		n++
+		r.check(written[name], construct, "copied", "the field "+name+" of Properties is not copied by copyImmutable: an instance made as a copy differs from its source in that property — for the background value, every block that was never written reads differently in the copy", w.fpos(f))
+	}
+	r.check(n >= 6, "imageblk.Properties:fields", fmt.Sprintf("%d", n), "too few fields: rule needs review", w.fpos(f))
+}
